@@ -1310,11 +1310,16 @@ impl<'source> Parser<'source> {
 
         let local_count = function_frame.local_count();
 
+        // Sort the accessed non-locals so that the order of a function's captures (and with it
+        // the compiled bytecode) doesn't depend on the hash set's iteration order.
+        let mut accessed_non_locals = Vec::from_iter(function_frame.accessed_non_locals);
+        accessed_non_locals.sort_by_key(|id| u32::from(*id));
+
         self.push_node_with_start_span(
             Node::Function(Function {
                 args,
                 local_count,
-                accessed_non_locals: AstVec::from_iter(function_frame.accessed_non_locals),
+                accessed_non_locals: AstVec::from_iter(accessed_non_locals),
                 body,
                 is_generator: function_frame.contains_yield,
             }),
